@@ -22,6 +22,7 @@ not judged.
 """
 import concurrent.futures
 import json
+import multiprocessing
 import os
 import random
 from fractions import Fraction
@@ -36,18 +37,26 @@ CH = {1: 'a', 2: 'b', 3: ' ', 4: 'A', 5: 'é', 6: 'B', 7: 'É',
       8: '日', 20: '.', 21: '-', 22: ',', 23: '%', 24: '#'}
 CH.update({10 + d: str(d) for d in range(10)})
 
-UNJUDGED = object()
+
+class _Unjudged:
+    def __repr__(self):
+        return '<unjudged>'
+
+
+UNJUDGED = _Unjudged()
 
 LAWS = ['SplitLaw', 'RightLaw', 'MidLaw', 'ReplaceLaw', 'FindLaw', 'SubstLaw',
         'ConcatLaw', 'TrimLaw', 'IdemLaw', 'ExactLaw', 'RenderLaw',
         'TextRoundLaw', 'TextShapeLaw']
+VALUE_ERROR = '#VALUE!'
+MAX_KEPT = 60          # violations kept per TLC job (all are counted)
 
 
 # --------------------------------------------------------------------------
-# decoding of exported values
+# decoding of exported values (see the Export section of Text.tla)
 
 def seq(x):
-    """a TLA+ sequence as exported by ToJson: list, or {} / {"1": ..}"""
+    """a TLA+ sequence as printed by ToJson: a list ({} when empty)"""
     if isinstance(x, dict):
         return [x[str(i)] for i in range(1, len(x) + 1)]
     return x
@@ -57,21 +66,23 @@ def txt(codes):
     return ''.join(CH[c] for c in seq(codes))
 
 
-def val(v):
-    """tagged spec value -> the Python value pycel must return"""
-    v = seq(v)
-    tag = v[0]
-    if tag == 'S':
-        return txt(v[1])
-    if tag == 'N':
-        return int(v[1])
-    if tag == 'B':
-        return bool(v[1])
-    if tag == 'E':
-        return v[1]
-    if tag == 'U':
+def tval(codes):
+    """text-valued result: codes, <<0>> = #VALUE!, <<-1>> = unjudged"""
+    codes = seq(codes)
+    if codes == [0]:
+        return VALUE_ERROR
+    if codes == [-1]:
         return UNJUDGED
-    raise tlc.MachineryFailure(f'unknown value tag in export: {v!r}')
+    return ''.join(CH[c] for c in codes)
+
+
+def nval(n):
+    """number-valued result: 0 = #VALUE!, -1 = unjudged"""
+    if n == 0:
+        return VALUE_ERROR
+    if n == -1:
+        return UNJUDGED
+    return int(n)
 
 
 def shown(x):
@@ -105,38 +116,21 @@ def _tla_set(items):
 
 
 def job_module(name, *, seeds, maxlen, nums, fmtmax):
-    """A wrapper module over MC_Text with the constants of one TLC job."""
+    """A wrapper module over MC_Text with the constants of one TLC job
+    (nums / fmtmax may name a definition of MC_Text)."""
     d = tlc.new_scratch('text')
+    if not isinstance(nums, str):
+        nums = _tla_set(f'<<{k}, {j}>>' for k, j in nums)
     with open(os.path.join(d, name + '.tla'), 'w') as f:
-        f.write(f'''---- MODULE {name} ----
+        f.write(f"""---- MODULE {name} ----
 EXTENDS MC_Text
 TSeeds  == {_tla_set(_tla_seq(s) for s in seeds)}
 TMaxLen == {maxlen}
-TNums   == {_tla_set(f'<<{k}, {j}>>' for k, j in nums)}
+TNums   == {nums}
 TFmtMax == {fmtmax}
 ====
-''')
+""")
     return name, d
-
-
-def run_job(label, module, spec_dir, cfg, workers, timeout=1500):
-    if spec_dir == tlc.SPEC:
-        res = tlc.run(module, cfg, spec_dir=spec_dir, workers=workers,
-                      timeout=timeout)
-    else:
-        res = tlc.run(module, cfg, spec_dir=spec_dir, workers=workers,
-                      timeout=timeout, library=tlc.SPEC)
-    if not res.ok:
-        raise tlc.MachineryFailure(
-            f'Text model ({label}) violates {res.violated}:\n' + res.stdout[-3000:])
-    vectors = res.json
-    res.stdout = ''
-    res.json = []
-    if len(vectors) < res.distinct:
-        raise tlc.MachineryFailure(
-            f'export incomplete ({label}): {len(vectors)} vectors for '
-            f'{res.distinct} states')
-    return label, res, vectors
 
 
 def tie_numbers(rnd, n):
@@ -146,43 +140,82 @@ def tie_numbers(rnd, n):
         j = rnd.randrange(0, 6)
         head = rnd.randrange(0, 10 ** rnd.randrange(1, 5))
         k = head * 10 + rnd.choice((5, 5, 5, 4, 6, 0, 9))
-        if k % 10 == 0 and j > 0:
+        if k == 0 or (k % 10 == 0 and j > 0):
             continue                       # keep k/10^j in lowest terms
-        if k == 0:
-            continue
         out.add((k * rnd.choice((1, 1, -1)), j))
     return sorted(out)
+
+
+def job_worker(job):
+    """One TLC job and the conformance run over its vectors (child process)."""
+    label, module, spec_dir, cfg = job['label'], job['module'], job['dir'], job['cfg']
+    res = tlc.run(module, cfg, spec_dir=spec_dir, workers=job['workers'],
+                  timeout=1500, library=tlc.SPEC, heap='2g', env=job['env'])
+    if not res.ok:
+        raise tlc.MachineryFailure(
+            f'Text model ({label}) violates {res.violated}:\n' + res.stdout[-3000:])
+    vectors = res.json
+    if len(vectors) < res.distinct:
+        raise tlc.MachineryFailure(
+            f'export incomplete ({label}): {len(vectors)} vectors for '
+            f'{res.distinct} states')
+    drv = Driver(random.Random(job['seed']), job['row_prob'], job['text_row_prob'])
+    drv.vectors(vectors)
+    drv.flush_rows()
+    drv.flush_text_rows()
+    out = drv.result()
+    out.update(label=label, vectors=len(vectors),
+               tlc=dict(distinct=res.distinct, generated=res.generated,
+                        depth=res.depth, wall=res.wall))
+    return out
+
+
+class _Res:
+    """what Verdict.add_tlc reads"""
+
+    def __init__(self, d):
+        self.distinct, self.generated = d['distinct'], d['generated']
+        self.depth, self.wall = d['depth'], d['wall']
 
 
 # --------------------------------------------------------------------------
 
 class Driver:
-    """drives the real functions with the exported vectors"""
+    """drives the real functions with the exported vectors of one job"""
 
     FUNCS = ('left right mid replace find substitute trim upper lower exact '
              'concatenate concat len_ text').split()
+    COUNTERS = ('judged unjudged unjudged_raised len_whole_float formula_cells '
+                'slice_states text_states prefix_states text_unjudged '
+                'nviolations').split()
 
-    def __init__(self, v, rnd, tier):
+    def __init__(self, rnd, row_prob, text_row_prob):
         from pycel.lib import text as T
         from pycel.lib.function_helpers import apply_meta
-        self.v, self.rnd, self.tier = v, rnd, tier
+        self.rnd = rnd
+        self.row_prob, self.text_row_prob = row_prob, text_row_prob
         self.W = {n: apply_meta(getattr(T, n), name_space={})[0]
                   for n in self.FUNCS}
-        self.unjudged = 0
-        self.unjudged_raised = 0
-        self.len_whole_float = 0
+        for c in self.COUNTERS:
+            setattr(self, c, 0)
         self.per_fn = {}
+        self.violations = []
+        self.samples = []
+        self.text_samples = []
         self.rows = []          # pending formula rows
         self.text_rows = []
-        self.formula_cells = 0
         self.seen_last_char = set()
         self.seen_last_fmt = set()
-        self.slice_states = 0
-        self.text_states = 0
-        self.prefix_states = 0
-        self.text_unjudged = 0
-        self.text_samples = 0
         self.maxlen_seen = 0
+
+    def result(self):
+        out = {c: getattr(self, c) for c in self.COUNTERS}
+        out.update(per_fn=self.per_fn, violations=self.violations,
+                   samples=self.samples, text_samples=self.text_samples,
+                   seen_last_char=sorted(self.seen_last_char),
+                   seen_last_fmt=sorted(self.seen_last_fmt),
+                   maxlen_seen=self.maxlen_seen)
+        return out
 
     # -- one library call ---------------------------------------------------
     def lib(self, fn, args, want):
@@ -190,35 +223,38 @@ class Driver:
             got = self.W[fn](*args)
         except Exception as exc:            # noqa
             got = exc
+        if type(got) is type(want) and got == want:
+            self.judged += 1                # same Python type, same value
+            self.per_fn[fn] = self.per_fn.get(fn, 0) + 1
+            return
         self.judge(fn, got, want, lambda: dict(
-            via='library', fn=fn, args=list(args), want=shown(want)))
+            via='library', fn=fn, args=list(args)))
 
     def judge(self, fn, got, want, case):
-        v = self.v
         if want is UNJUDGED or (isinstance(want, list) and UNJUDGED in want):
             self.unjudged += 1
             if isinstance(got, Exception):
                 self.unjudged_raised += 1
             return
-        v.evaluations += 1
-        v.distinct.n += 1
+        self.judged += 1
         self.per_fn[fn] = self.per_fn.get(fn, 0) + 1
-        if type(got) is type(want) and got == want:
-            ok = True                       # same Python type, same value
-        elif isinstance(want, list):        # a set of allowed answers
-            ok = not isinstance(got, Exception) and any(
-                xl.same_value(got, w) for w in want)
-        else:
-            ok = not isinstance(got, Exception) and xl.same_value(got, want)
-        if not ok:
-            c = case()
-            if isinstance(want, list):
-                c['want'] = list(want)
-            c['got'] = repr(got)
-            v.violation(f"{fn.upper().rstrip('_')}{tuple(c.get('args', ()))!r}"
-                        f" via {c['via']}"
-                        + (f" {c['formula']}" if 'formula' in c else '')
-                        + f": expected {c['want']!r}, got {got!r}", c)
+        wants = want if isinstance(want, list) else [want]   # allowed answers
+        if not isinstance(got, Exception) and any(
+                xl.same_value(got, w) for w in wants):
+            return
+        self.nviolations += 1
+        if len(self.violations) >= MAX_KEPT:
+            return
+        c = case()
+        c['want'] = want
+        c['got'] = repr(got)
+        name = fn.upper().rstrip('_')
+        what = (f"{name}{tuple(c['args'])!r}" if c['via'] == 'library'
+                else f"{c['formula']} with {c['cells']!r}")
+        self.violations.append(dict(
+            desc=f"{what} via {c['via']}: expected "
+                 f"{' or '.join(repr(w) for w in wants)}, got {got!r}",
+            case=c))
 
     # -- slicing vectors ----------------------------------------------------
     @staticmethod
@@ -230,9 +266,8 @@ class Driver:
             return st, [st]
         k, j = int(src[1]), int(src[2])
         if j == 0:
-            return st, [k, float(k)]
-        x = float(Fraction(k, 10 ** j))
-        return st, [x]
+            return st, [k, float(k)]       # 3 and 3.0 are both "3"
+        return st, [float(Fraction(k, 10 ** j))]
 
     def slice_vector(self, vec):
         rnd = self.rnd
@@ -243,33 +278,38 @@ class Driver:
             self.maxlen_seen = max(self.maxlen_seen, len(st))
             if st:
                 self.seen_last_char.add(st[-1])
-        if len(st) >= 3 and self.rnd.random() < 0.2:
-            self.v.sample(dict(s=st, src=src, left_2=shown(val(vec['left']['2'])),
-                               right_2=shown(val(vec['right']['2'])),
-                               trim=shown(val(vec['trim']))), limit=4)
-        left = {int(n): val(r) for n, r in vec['left'].items()}
-        right = {int(n): val(r) for n, r in vec['right'].items()}
-        mid = {(int(p), int(c)): val(r) for p, row in vec['mid'].items()
-               for c, r in row.items()}
+        lo, hi = vec['pos']
+        poss = list(range(lo, hi + 1))
+        left = dict(zip(poss, map(tval, seq(vec['left']))))
+        right = dict(zip(poss, map(tval, seq(vec['right']))))
+        mid = {(p, c): tval(r) for p, row in zip(poss, seq(vec['mid']))
+               for c, r in zip(poss, seq(row))}
         repl = {}
         for rec in vec['replace']:
             t = txt(rec['t'])
-            for n, row in rec['r'].items():
-                for k, r in row.items():
-                    repl[(t, int(n), int(k))] = val(r)
+            for n, row in zip(poss, seq(rec['r'])):
+                for k, r in zip(poss, seq(row)):
+                    repl[(t, n, k)] = tval(r)
         find = {}
         for rec in vec['find']:
             f = txt(rec['f'])
-            for s0, allowed in rec['r'].items():
-                find[(f, int(s0))] = [val(a) for a in allowed]
-        subst = [(txt(r['o']), txt(r['t']), val(r['all']),
-                  {int(i): val(x) for i, x in r['nth'].items()})
+            for s0, allowed in zip(poss, seq(rec['r'])):
+                allowed = [nval(a) for a in allowed]
+                find[(f, s0)] = allowed[0] if len(allowed) == 1 else allowed
+        # nth[i] is instance i (instance 0 first)
+        subst = [(txt(r['o']), txt(r['t']), tval(r['all']),
+                  dict(enumerate(map(tval, seq(r['nth'])))))
                  for r in vec['subst']]
-        concat = [(txt(r['t']), val(r['r']), val(r['r3'])) for r in vec['concat']]
-        exact = [(txt(r['t']), val(r['r'])) for r in vec['exact']]
-        want_len = val(vec['len'])
-        trim, upper, lower = val(vec['trim']), val(vec['upper']), val(vec['lower'])
+        concat = [(txt(r['t']), tval(r['r']), tval(r['r3'])) for r in vec['concat']]
+        exact = [(txt(r['t']), bool(r['r'])) for r in vec['exact']]
+        want_len = int(vec['len'])
+        trim, upper, lower = txt(vec['trim']), txt(vec['upper']), txt(vec['lower'])
+        if len(st) >= 3 and len(self.samples) < 2 and rnd.random() < 0.2:
+            self.samples.append(dict(s=st, src=src, left_2=shown(left[2]),
+                                     right_2=shown(right[2]), trim=trim,
+                                     replace_2_1_b=shown(repl.get(('b', 2, 1)))))
 
+        lib = self.lib
         for x in xs:
             whole_float = isinstance(x, float) and x.is_integer()
             if whole_float:
@@ -277,73 +317,68 @@ class Driver:
                 # (tests/lib/test_text.py test_len_); not judged.
                 self.len_whole_float += 1
             else:
-                self.lib('len_', (x,), want_len)
+                lib('len_', (x,), want_len)
             for n, w in left.items():
-                self.lib('left', (x, n), w)
+                lib('left', (x, n), w)
             for n, w in right.items():
-                self.lib('right', (x, n), w)
-            self.lib('left', (x,), left[1])        # num_chars defaults to 1
-            self.lib('right', (x,), right[1])
+                lib('right', (x, n), w)
+            lib('left', (x,), left[1])        # num_chars defaults to 1
+            lib('right', (x,), right[1])
             for (p, c), w in mid.items():
-                self.lib('mid', (x, p, c), w)
+                lib('mid', (x, p, c), w)
             for (t, n, k), w in repl.items():
-                self.lib('replace', (x, n, k, t), w)
+                lib('replace', (x, n, k, t), w)
                 if t == '3' and 1 <= n <= 2 and 0 <= k <= 1:
-                    self.lib('replace', (x, n, k, 3.0), w)
+                    lib('replace', (x, n, k, 3.0), w)
             for (f, s0), w in find.items():
-                self.lib('find', (f, x, s0), w)
+                lib('find', (f, x, s0), w)
                 if s0 == 1:
-                    self.lib('find', (f, x), w)    # start defaults to 1
+                    lib('find', (f, x), w)    # start defaults to 1
             for o, t, w_all, nth in subst:
-                self.lib('substitute', (x, o, t), w_all)
+                lib('substitute', (x, o, t), w_all)
                 for i, w in nth.items():
-                    self.lib('substitute', (x, o, t, i), w)
+                    lib('substitute', (x, o, t, i), w)
                 if t == '3':
-                    self.lib('substitute', (x, o, 3.0), w_all)
+                    lib('substitute', (x, o, 3.0), w_all)
             for t, w, w3 in concat:
-                self.lib('concatenate', (x, t), w)
-                self.lib('concat', (x, t), w)
-                self.lib('concatenate', (x, t, x), w3)
+                lib('concatenate', (x, t), w)
+                lib('concat', (x, t), w)
+                lib('concatenate', (x, t, x), w3)
                 if t == '3':
-                    self.lib('concatenate', (x, 3.0), w)
-                    self.lib('concatenate', (x, 3), w)
+                    lib('concatenate', (x, 3.0), w)
+                    lib('concatenate', (x, 3), w)
             for t, w in exact:
-                self.lib('exact', (x, t), w)
-                self.lib('exact', (t, x), w)
-            self.lib('trim', (x,), trim)
-            self.lib('upper', (x,), upper)
-            self.lib('lower', (x,), lower)
+                lib('exact', (x, t), w)
+                lib('exact', (t, x), w)
+            lib('trim', (x,), trim)
+            lib('upper', (x,), upper)
+            lib('lower', (x,), lower)
             # idempotence on the real code
             for fn, w in (('trim', trim), ('upper', upper), ('lower', lower)):
-                self.lib(fn, (w,), w)
+                lib(fn, (w,), w)
 
         # rows for the workbook run
-        p_row = self.row_prob
-        poss = sorted(left)
         for x in xs:
-            if rnd.random() >= p_row:
+            if rnd.random() >= self.row_prob:
                 continue
             n = rnd.choice(poss)
             k = rnd.choice(poss)
             t = rnd.choice(sorted({t for t, _, _ in repl}))
             fkeys = sorted({f for f, _ in find})
-            # prefer a search text that occurs
             occurring = [f for f in fkeys if f and f in st]
             f = rnd.choice(occurring) if occurring and rnd.random() < 0.7 \
-                else rnd.choice(fkeys)
-            cands = [(o, t2, w_all, nth) for o, t2, w_all, nth in subst
-                     if o == f and t2 == t]
-            o, t2, w_all, nth = cands[0]
+                else rnd.choice(fkeys)            # prefer a text that occurs
+            w_all, nth = [(a, b) for o, t2, a, b in subst if o == f and t2 == t][0]
             i = rnd.choice(sorted(nth))
             self.rows.append(dict(
                 st=st, x=x, n=n, k=k, t=t, f=f, i=i,
                 want=dict(
-                    split=(st if n >= 0 else '#VALUE!'),
-                    left=left[n], right=right[k], mid=mid[(n, k)],
+                    split=st, left=left[n], right=right[k], mid=mid[(n, k)],
                     replace=repl[(t, n, k)],
                     find1=find[(f, 1)], findn=find[(f, n)],
                     sub_all=w_all, sub_nth=nth[i],
                     trim=trim, upper=upper, lower=lower,
+                    idem=trim + upper + lower,
                     exact=dict(exact)[t],
                     concat=[w for t3, w, _ in concat if t3 == t][0],
                     len=(UNJUDGED if isinstance(x, float) and x.is_integer()
@@ -353,7 +388,7 @@ class Driver:
 
     # -- formulas -----------------------------------------------------------
     COLS = [
-        # (column, formula template, key of the expected value, function name)
+        # (column, formula, key of the expected value, function)
         ('G', '=LEFT(A{r},B{r})&MID(A{r},B{r}+1,LEN(A{r}))', 'split', 'left'),
         ('H', '=RIGHT(A{r},C{r})', 'right', 'right'),
         ('I', '=REPLACE(A{r},B{r},C{r},D{r})', 'replace', 'replace'),
@@ -382,35 +417,28 @@ class Driver:
         cells = {}
         plan = []
         for r, row in enumerate(rows, start=1):
-            cells[f'A{r}'] = row['x']
-            cells[f'B{r}'] = row['n']
-            cells[f'C{r}'] = row['k']
-            cells[f'D{r}'] = row['t']
-            cells[f'E{r}'] = row['f']
-            cells[f'F{r}'] = row['i']
+            for col, key in zip('ABCDEF', ('x', 'n', 'k', 't', 'f', 'i')):
+                cells[f'{col}{r}'] = row[key]
             w = row['want']
-            # REPLACE = LEFT & t & MID (ReplaceLaw) is stated for counts >= 0
+            # REPLACE = LEFT & t & MID (ReplaceLaw; #VALUE! on both sides for
+            # n < 1) is stated for counts k >= 0
             w['ident'] = w['replace'] if row['k'] >= 0 else None
-            # the split identity needs MID(s, n+1, ..) with n+1 >= 1
+            # the split identity (SplitLaw) is stated for n >= 0
             if row['n'] < 0:
                 w['split'] = None
-            if all(x is not UNJUDGED for x in (w['trim'], w['upper'], w['lower'])):
-                w['idem'] = w['trim'] + w['upper'] + w['lower']
-            else:
-                w['idem'] = None
             for col, tpl, key, fn in self.COLS:
                 if w[key] is None:
                     continue
                 f = tpl.format(r=r)
                 if col == 'X' and isinstance(row['x'], str) and r % 3 == 0:
-                    # the same with the text as a literal in the formula
-                    f = f'=LEFT("{row["st"]}",B{r})'
+                    f = f'=LEFT("{row["st"]}",B{r})'   # the text as a literal
                 cells[f'{col}{r}'] = f
                 plan.append((f'{col}{r}', f, w[key], fn, row))
         try:
             model = xl.compile_wb(cells)
         except Exception as exc:            # noqa
-            raise tlc.MachineryFailure(f'workbook of formula rows does not compile: {exc!r}')
+            raise tlc.MachineryFailure(
+                f'workbook of formula rows does not compile: {exc!r}')
         for addr, f, want, fn, row in plan:
             try:
                 got = model.evaluate('S!' + addr)
@@ -420,8 +448,7 @@ class Driver:
             self.judge(fn, got, want, lambda: dict(
                 via='formula', formula=f, fn=fn,
                 cells=dict(A=row['x'], B=row['n'], C=row['k'], D=row['t'],
-                           E=row['f'], F=row['i']),
-                want=shown(want)))
+                           E=row['f'], F=row['i'])))
 
     # -- TEXT vectors -------------------------------------------------------
     def text_vector(self, vec):
@@ -429,15 +456,14 @@ class Driver:
         f = txt(vec['fmt'])
         self.seen_last_fmt.add(f[-1])
         for rec in vec['r']:
-            want = val(rec['r'])
+            want = tval(rec['r'])
             k, j = int(rec['k']), int(rec['j'])
             if want is UNJUDGED:
                 self.text_unjudged += 1
             xs = [k, float(k)] if j == 0 else [float(Fraction(k, 10 ** j))]
-            if self.text_samples < 3 and self.rnd.random() < 0.002:
-                self.text_samples += 1
-                self.v.sample(dict(text_of=f'{k}/10^{j}', fmt=f, want=shown(want)),
-                              limit=9)
+            if len(self.text_samples) < 2 and self.rnd.random() < 0.002:
+                self.text_samples.append(
+                    dict(text_of=f'{k}/10^{j}', fmt=f, want=shown(want)))
             for x in xs:
                 self.lib('text', (x, f), want)
                 if self.rnd.random() < self.text_row_prob:
@@ -464,8 +490,7 @@ class Driver:
                 got = exc
             self.formula_cells += 1
             self.judge('text', got, want, lambda: dict(
-                via='formula', formula=formula, fn='text',
-                cells=dict(A=x, B=f), want=shown(want)))
+                via='formula', formula=formula, fn='text', cells=dict(A=x, B=f)))
 
     def vectors(self, vectors):
         for vec in vectors:
@@ -488,11 +513,13 @@ def coverage_run():
     """TLC's -coverage cannot be switched on for the law-checking runs: its
     cost model inlines every operator at every call site and exhausts the heap
     on this module before the first state.  Action coverage is therefore taken
-    from a run of the same machine and constants with only TypeOK
-    (Text_cov.cfg); the law-checking runs prove their own non-vacuity through
-    the exported vectors (every AppendChar / AppendFmt outcome must appear)."""
-    res = tlc.run('MC_Text', 'Text_cov.cfg', workers=4, coverage=True,
-                  timeout=600)
+    from a run of the same machine with the constants of MC_Text and only
+    TypeOK (Text_cov.cfg); the law-checking runs prove their own non-vacuity
+    through the exported vectors (every AppendChar / AppendFmt outcome must
+    appear)."""
+    res = tlc.run('MC_Text', 'Text_cov.cfg', workers=2, coverage=True,
+                  timeout=600, heap='1g', env={
+                      'JDK_JAVA_OPTIONS': '-XX:ParallelGCThreads=2 -XX:TieredStopAtLevel=1'})
     if not res.ok:
         raise tlc.MachineryFailure(
             f'Text model (coverage run) violates {res.violated}:\n'
@@ -501,101 +528,144 @@ def coverage_run():
         if res.coverage.get(act, (0, 0))[1] == 0:
             raise tlc.MachineryFailure(f'vacuous: action {act} never taken')
     res.stdout = ''
+    res.json = []
     return res
+
+
+ALPHABET = (1, 2, 3, 4, 5)
+
+
+def plan_jobs(tier, rnd):
+    """The TLC jobs of a tier.  quick: the state space of Text_mc.cfg, cut by
+    the first character so that the jobs run side by side.  thorough: typed
+    texts up to 6 characters cut by their first two characters, random
+    6-character seeds extended to 8, more numbers and longer formats."""
+    jobs = []
+
+    def add(label, name, **consts):
+        module, d = job_module(name, **consts)
+        jobs.append(dict(label=label, module=module, dir=d))
+
+    if tier == 'quick':
+        maxlen, fmtmax = 4, 6
+        add('numbers and formats', 'MC_TextN', seeds=[()], maxlen=0,
+            nums='MCNums', fmtmax='MCFmtMax')
+        for a in ALPHABET:
+            add(f'texts {CH[a]!r}..', f'MC_TextP{a}', seeds=[(a,)],
+                maxlen='MCMaxLen', nums=[], fmtmax=0)
+        row_prob, text_row_prob, workers, procs = 0.35, 0.04, 3, 6
+    else:
+        maxlen, fmtmax = 6, 8
+        ties = tie_numbers(rnd, 60)
+        add('numbers and formats', 'MC_TextN', seeds=[()], maxlen=1,
+            nums='MCNums \\cup ' + _tla_set(f'<<{k}, {j}>>' for k, j in ties),
+            fmtmax=fmtmax)
+        for a in ALPHABET:
+            for b in ALPHABET:
+                add(f'texts {CH[a] + CH[b]!r}..', f'MC_TextP{a}{b}',
+                    seeds=[(a, b)], maxlen=maxlen, nums=[], fmtmax=0)
+        seeds = sorted({tuple(rnd.choice(ALPHABET) for _ in range(6))
+                        for _ in range(40)})
+        add('long texts', 'MC_TextL', seeds=seeds, maxlen=8, nums=[], fmtmax=0)
+        row_prob, text_row_prob, workers, procs = 0.15, 0.01, 3, 7
+    # several small JVMs run side by side: few GC threads each; the short
+    # jobs of the quick tier finish before the optimising JIT pays off
+    jvm = '-XX:ParallelGCThreads=2' + (
+        ' -XX:TieredStopAtLevel=1' if tier == 'quick' else '')
+    for job in jobs:
+        job.update(cfg=os.path.join(tlc.SPEC, 'Text_big.cfg'), workers=workers,
+                   env={'JDK_JAVA_OPTIONS': jvm},
+                   seed=rnd.randrange(2 ** 31), row_prob=row_prob,
+                   text_row_prob=text_row_prob)
+    return jobs, procs, maxlen, fmtmax
 
 
 def run(tier, seed):
     v = Verdict(PID, tier, seed)
     v.distinct = _Count()
     rnd = random.Random(seed)
-    drv = Driver(v, rnd, tier)
-    big_cfg = os.path.join(tlc.SPEC, 'Text_big.cfg')
+    import pycel.lib.text            # noqa  (imported before the fork)
+    tlc.scratch_dir()                # one scratch directory, owned by the parent
+    jobs, procs, maxlen, fmtmax = plan_jobs(tier, rnd)
 
-    jobs = []   # (label, module, spec_dir, cfg, workers)
-    if tier == 'quick':
-        drv.row_prob, drv.text_row_prob = 0.4, 0.05
-        jobs.append(('Text_mc', 'MC_Text', tlc.SPEC, 'Text_mc.cfg', 16))
-        maxlen, parallel = 4, 1
-    else:
-        drv.row_prob, drv.text_row_prob = 0.12, 0.02
-        maxlen, parallel = 6, 3
-        alphabet = (1, 2, 3, 4, 5)
-        from_mc = [(0, 0), (3, 0), (12, 0), (120, 0), (-7, 0), (1234567, 0),
-                   (5, 1), (25, 1), (-25, 1), (125, 3), (5, 3), (1005, 3),
-                   (145, 3), (9995, 3), (9995, 1), (999999, 3), (123456, 2),
-                   (5, 4), (15, 4), (-5, 4), (45, 2), (2675, 3)]
-        nums = sorted(set(from_mc) | set(tie_numbers(rnd, 70)))
-        m, d = job_module('MC_TextN', seeds=[()], maxlen=1, nums=nums, fmtmax=8)
-        jobs.append(('Text_big numbers', m, d, big_cfg, 5))
-        for a in alphabet:
-            for b in alphabet:
-                m, d = job_module(f'MC_TextP{a}{b}', seeds=[(a, b)],
-                                  maxlen=maxlen, nums=[], fmtmax=0)
-                jobs.append((f'Text_big prefix {a}{b}', m, d, big_cfg, 5))
-        # longer texts: random 6-character seeds extended to 8
-        seeds = sorted({tuple(rnd.choice(alphabet) for _ in range(6))
-                        for _ in range(40)})
-        m, d = job_module('MC_TextL', seeds=seeds, maxlen=8, nums=[], fmtmax=0)
-        jobs.append(('Text_big long', m, d, big_cfg, 5))
-
-    with concurrent.futures.ThreadPoolExecutor(max_workers=parallel + 1) as pool:
-        cov_fut = pool.submit(coverage_run)
-        futs = [pool.submit(run_job, *job) for job in jobs]
+    total = dict.fromkeys(Driver.COUNTERS, 0)
+    per_fn, seen_char, seen_fmt = {}, set(), set()
+    samples, text_samples, longest = [], [], 0
+    ctx = multiprocessing.get_context('fork')
+    with concurrent.futures.ThreadPoolExecutor(1) as tpool, \
+            concurrent.futures.ProcessPoolExecutor(procs, mp_context=ctx) as pool:
+        cov_fut = tpool.submit(coverage_run)
+        futs = [pool.submit(job_worker, job) for job in jobs]
         try:
             for fut in futs:
-                label, res, vectors = fut.result()
-                v.add_tlc(res, label)
-                v.traces += len(vectors)
-                drv.vectors(vectors)
-                del vectors
+                out = fut.result()
+                v.add_tlc(_Res(out['tlc']), out['label'])
+                v.traces += out['vectors']
+                for c in Driver.COUNTERS:
+                    total[c] += out[c]
+                for fn, n in out['per_fn'].items():
+                    per_fn[fn] = per_fn.get(fn, 0) + n
+                v.violations.extend(out['violations'])
+                seen_char.update(out['seen_last_char'])
+                seen_fmt.update(out['seen_last_fmt'])
+                samples += out['samples']
+                text_samples += out['text_samples']
+                longest = max(longest, out['maxlen_seen'])
             cov_res = cov_fut.result()
-            v.add_tlc(cov_res, 'Text_cov')
-            cov = {k: list(c) for k, c in cov_res.coverage.items()}
         except BaseException:
             for fut in futs:
                 fut.cancel()
             raise
-    drv.flush_rows()
-    drv.flush_text_rows()
+    v.add_tlc(cov_res, 'Text_cov (TypeOK only, -coverage)')
+    v.evaluations = total['judged']
+    v.distinct.n = total['judged']
+    for smp in samples[:4] + text_samples[:3]:
+        v.sample(smp, limit=7)
 
-    # non-vacuity of the big runs, from what they exported
-    want_chars = {CH[c] for c in (1, 2, 3, 4, 5)}
-    if drv.seen_last_char != want_chars:
+    # non-vacuity of the law-checking runs, from what they exported
+    if seen_char != {CH[c] for c in ALPHABET}:
         raise tlc.MachineryFailure(
-            f'vacuous: AppendChar outcomes seen {sorted(drv.seen_last_char)}')
-    if drv.seen_last_fmt != set('0#,.%'):
+            f'vacuous: AppendChar outcomes seen {sorted(seen_char)}')
+    if seen_fmt != set('0#,.%'):
         raise tlc.MachineryFailure(
-            f'vacuous: AppendFmt outcomes seen {sorted(drv.seen_last_fmt)}')
-    if drv.slice_states == 0 or drv.text_states == 0 or drv.formula_cells == 0:
+            f'vacuous: AppendFmt outcomes seen {sorted(seen_fmt)}')
+    if not (total['slice_states'] and total['text_states'] and total['formula_cells']):
         raise tlc.MachineryFailure('vacuous: no slicing / TEXT / formula vectors')
-    if drv.unjudged_raised:
-        v.note(f'{drv.unjudged_raised} unjudged call(s) raised an exception '
+    if longest != (maxlen if tier == 'quick' else 8):
+        raise tlc.MachineryFailure(f'vacuous: longest typed text seen {longest}')
+    if total['unjudged_raised']:
+        v.note(f"{total['unjudged_raised']} unjudged call(s) raised an exception "
                '(inputs the statement does not fix; not a verdict)')
-    if drv.len_whole_float:
-        v.note(f'LEN of a whole float not judged ({drv.len_whole_float} inputs): '
-               'LEN(3.0) = 3 is pinned by tests/lib/test_text.py::test_len_ '
-               'although Excel has no 3.0')
+    if total['len_whole_float']:
+        v.note(f"LEN of a whole float not judged ({total['len_whole_float']} "
+               'inputs): LEN(3.0) = 3 is pinned by tests/lib/test_text.py::'
+               'test_len_ although Excel has no 3.0')
+    if total['nviolations'] > len(v.violations):
+        v.note(f"{total['nviolations']} discrepancies in all, "
+               f'{len(v.violations)} kept')
 
     v.extra.update(
         exhaustive=True,
-        bounds=dict(alphabet=[CH[c] for c in (1, 2, 3, 4, 5)],
-                    typed_text_max_len=maxlen,
-                    longest_text_seen=drv.maxlen_seen,
+        bounds=dict(alphabet=[CH[c] for c in ALPHABET],
+                    typed_text_exhaustive_up_to=maxlen,
+                    longest_text=longest,
                     positions='-1..10',
-                    new_texts=['', 'b', CH[8] + 'a', '3 (also as 3 and 3.0)'],
+                    new_texts=['', 'b', CH[8] + 'a', '3 (also passed as 3 and 3.0)'],
                     search_texts='all texts of length <= 2 over the alphabet '
-                                 '+ pieces of the text itself',
-                    text_format_max_len=6 if tier == 'quick' else 8),
+                                 '+ the pieces of the text itself',
+                    text_format_max_len=fmtmax),
         laws_checked_by_tlc=LAWS,
-        coverage_actions=cov,
-        slicing_states=drv.slice_states,
-        text_states=drv.text_states,
-        format_prefix_states=drv.prefix_states,
-        formula_cells_evaluated=drv.formula_cells,
-        judged_calls_per_function=dict(sorted(drv.per_fn.items())),
-        unjudged_calls=drv.unjudged,
-        unjudged_text_vectors=drv.text_unjudged,
-        len_of_whole_float_not_judged=drv.len_whole_float,
+        coverage_actions={k: list(c) for k, c in cov_res.coverage.items()},
+        tlc_jobs=len(jobs),
+        slicing_states=total['slice_states'],
+        text_states=total['text_states'],
+        format_prefix_states=total['prefix_states'],
+        formula_cells_evaluated=total['formula_cells'],
+        judged_calls_per_function=dict(sorted(per_fn.items())),
+        unjudged_calls=total['unjudged'],
+        unjudged_text_vectors=total['text_unjudged'],
+        len_of_whole_float_not_judged=total['len_whole_float'],
+        discrepancies_total=total['nviolations'],
         rule='one case = one call (function, arguments) of the wrapped '
              'library function or one formula cell; all cases of a run are '
              'distinct inputs by construction (distinct TLC states x distinct '
@@ -611,37 +681,31 @@ def run(tier, seed):
     v.assumptions = [
         'TLC evaluates the definitions of Text.tla correctly',
         'float(Fraction(k, 10**j)) has the shortest repr k/10^j (|k| < 10^7, j <= 5)',
-        'action coverage measured on a small instance of the same module; '
-        'the large runs are checked for non-vacuity through their vectors']
+        'action coverage measured with TypeOK only (Text_cov.cfg); the '
+        'law-checking runs are checked for non-vacuity through their vectors']
     return v.finish()
 
 
 def replay(path):
     """re-execute one recorded violation"""
+    import re
     with open(path) as f:
         rec = json.load(f)
     case = rec['case']
     from pycel.lib import text as T
     from pycel.lib.function_helpers import apply_meta
-    if case.get('via') == 'library':
-        fn = apply_meta(getattr(T, case['fn']), name_space={})[0]
-        try:
-            got = fn(*case['args'])
-        except Exception as exc:            # noqa
-            got = exc
-    else:
-        cells = {f'{c}1': x for c, x in case['cells'].items()}
-        formula = case['formula']
-        import re
-        formula = re.sub(r'([A-F])\d+', r'\g<1>1', formula)
-        try:
-            got = xl.evalf(formula, cells)
-        except Exception as exc:            # noqa
-            got = exc
+    try:
+        if case.get('via') == 'library':
+            got = apply_meta(getattr(T, case['fn']), name_space={})[0](*case['args'])
+        else:
+            cells = {f'{c}1': x for c, x in case['cells'].items()}
+            got = xl.evalf(re.sub(r'\b([A-F])\d+', r'\g<1>1', case['formula']), cells)
+    except Exception as exc:            # noqa
+        got = exc
     want = case['want']
     wants = want if isinstance(want, list) else [want]
     ok = not isinstance(got, Exception) and any(
-        w == '<unjudged>' or xl.same_value(got, w) for w in wants)
+        xl.same_value(got, w) for w in wants)
     print(f"{rec['desc']}\n  now: {got!r}  expected: {want!r}")
     if ok:
         print(f'{PID}: replay OK (no longer reproduces)')
